@@ -39,10 +39,10 @@ class SRv6Capabilities(TLV):
         flag = {}
         if bgpls_pro_id in (1, 2):
             # https://datatracker.ietf.org/doc/html/rfc9352#name-srv6-capabilities-sub-tlv
-            flag['O'] = (flags << 1) % 256 >> 15
+            flag['O'] = (flags << 1) % 65536 >> 15
         elif bgpls_pro_id in (3, 6):
             # https://datatracker.ietf.org/doc/html/draft-ietf-lsr-ospfv3-srv6-extensions-09#section-2
-            flag['O'] = (flags << 1) % 256 >> 15
+            flag['O'] = (flags << 1) % 65536 >> 15
         else:
             flag = flags
         # reserved = struct.unpack('!H', data[2:4])[0]
